@@ -36,21 +36,21 @@ CLAIMED["C14"] = dict(
 
 
 CLAIMED["C13"] = dict(
-   text="History independence is structural, so it is decided structurally and for all histories at once: (1) closed whole-program inventory of every non-const static-storage object that is written or whose address escapes, each with a category and a frozen writer set — a new object or writer is reported; (2) the one cache that answers lookups (per zone handle) is replaced only as a whole from a single range lookup, is compared half-open and carries a full-width index; (3) the generation-counter scratch table of the character-class helpers never reuses generation 0 and is cleared when the counter restarts; (4) in every per-item loop of the nine tools each variable that lives across iterations and is modified inside is a counter, a sticky status, or provably (CFG) assigned before any use in each iteration.",
+   text="History independence is structural, so it is decided structurally and for all histories at once: (1) closed whole-program inventory of every non-const static-storage object that is written or whose address escapes, each with a category and a frozen writer set — a new object or writer is reported; (2) the one cache that answers lookups (per zone handle) is replaced only as a whole from a single range lookup, is compared half-open and carries a full-width index; (3) the generation-counter scratch table of the character-class helpers never reuses generation 0 and is cleared when the counter restarts; (4) the name registry of opened zones reports a hit only when stored name and key end together (no prefix hits); (5) in every per-item loop of the nine tools each variable that lives across iterations and is modified inside is a counter, a sticky status, or provably (CFG) assigned before any use in each iteration.",
    note="Assumes heap state is reachable only through the inventoried registries; flex/bison statics (yy*) are reset per parse; the locale tables are option state (decided by C20). Accepted loop-carried variables are listed with reasons in rules/c13.py (LOOP_OK) and in the evidence.",
    technique="static analysis: whole-program effect inventory of static storage, cache write/compare discipline, CFG def-before-use analysis of per-item loops",
    ref="DESIGN.md §4 C13")
 
 
 CLAIMED["C08"] = dict(
-   text="A comparison of integers is a total order by construction; the check decides that the integers compared are the right ones, for every pair at once: the representations compared as raw words are exactly those whose bit-field layout is ordered by chronological significance (ymcw goes to its own comparison); every `return c` of the three-way comparisons is guarded (CFG) by exactly the relation sign(c) between left and right operand, with fields taken in y, m, c order; no wrap-prone unsigned difference is reduced modulo a non-power-of-two; dt_dtcmp never reads the date/time sandwich of a value tagged as packed (abstract interpretation over the record layout); the range matrix decodes to the documented 16-cell table and both range predicates agree; dtest's option table and operand order, and dsort's key formats / separator / child command lines are as required.",
+   text="A comparison of integers is a total order by construction; the check decides that the integers compared are the right ones, for every pair at once: the representations compared as raw words are exactly those whose bit-field layout is ordered by chronological significance (ymcw goes to its own comparison); every `return c` of the three-way comparisons is guarded (CFG) by exactly the relation sign(c) between left and right operand, with fields taken in y, m, c order; no wrap-prone unsigned difference is reduced modulo a non-power-of-two; dt_dtcmp never reads the date/time sandwich of a value tagged as packed (abstract interpretation over the record layout); the range matrix decodes to the documented 16-cell table and both range predicates agree; dtest's option table and operand order, and dsort's key formats / separator / child command lines are as required and the time key is written for every kind of value that has a time part (guard folded over date-only / time-only / date-time).",
    note="Assumes zeroed padding bits in compared words; sort(1)/cut(1) children are not analysed (their command lines are). Tables are decoded by constant folding of the source expression over domains of 3 resp. 16 values.",
    technique="static analysis: record-layout facts, CFG guard/return agreement, tag-specialised abstract interpretation, table decoding by constant folding",
    ref="DESIGN.md §4 C08")
 
 
 CLAIMED["C17"] = dict(
-   text="The expression is the program and dgrep's engine its interpreter; the check decides the interpreter's structure for all expression trees: the union slot holding a comparison atom is read only under a DEX_VAL test on that access path; the evaluator combines both children of a conjunction with &&, of a disjunction with ||; negation push-down is the involution CONJ<->DISJ with both children's flags toggled (folded over {0,1}) and each parser-producible operator mapped to one with the complementary accept set (abstract interpretation of __nega_kv + constant folding of the matcher's cases over sign in {-1,0,1}); whole-date and specifier comparisons accept exactly the signs their operator names say with the line's value on the left; each DNF rewrite leaves a tree (symbolic execution of the pointer assignments of every branch, aliasing helpers derived from their bodies), matching the release routine; grammar precedences OR<AND<NOT with %expect 0; dgrep writes a selected line once, whole, with its newline.",
+   text="The expression is the program and dgrep's engine its interpreter; the check decides the interpreter's structure for all expression trees: the union slot holding a comparison atom is read only under a DEX_VAL test on that access path; the evaluator combines both children of a conjunction with &&, of a disjunction with ||; negation push-down is the involution CONJ<->DISJ with both children's flags toggled (folded over {0,1}) and each parser-producible operator mapped to one with the complementary accept set (abstract interpretation of __nega_kv + constant folding of the matcher's cases over sign in {-1,0,1}); whole-date and specifier comparisons accept exactly the signs their operator names say with the line's value on the left; each DNF rewrite leaves a tree (symbolic execution of the pointer assignments of every branch, aliasing helpers derived from their bodies), matching the release routine; grammar precedences OR<AND<NOT with %expect 0; in the generated parser the `!` action toggles the negation flag and the static scratch atom is cleared as a whole before each atom; dgrep writes a selected line once, whole, with its newline.",
    note="Assumes bison/flex implement the declared precedences; comparison functions are the order (C08); nodes are created only by parser actions, make_dexpr, dexpr_copy.",
    technique="static analysis: union typestate via CFG guards, table decoding by constant folding / abstract interpretation, symbolic heap execution for ownership, CFG write-once check",
    ref="DESIGN.md §4 C17")
@@ -92,7 +92,7 @@ CLAIMED["C04"] = dict(
 
 
 CLAIMED["C06"] = dict(
-   text="Decides the refinement rule structurally for all durations and all subsets of the fixed-ratio units week / day / hour / minute / second: in precalc the total is made non-negative, the unit blocks come in strictly decreasing unit order, each divides and reduces by the same constant and the seconds slot receives the rest, so the printed components recombine to the total truncated toward zero; an interval analysis partitioned by the four request flags proves, for each of the 16 flag combinations, every refined component inside [0, next-coarser-requested/own - 1] and the coarsest non-negative; sibling agreement ties the constants to the specifiers: the specifier that sets a flag (determine_durfmt) prints the field (__strfdtdur) that the block guarded by that flag fills (precalc), with the number of seconds of that specifier's unit; the print loop never writes the precomputed components (each specifier may occur repeatedly) and exactly one minus sign is written, before the loop, from the sign of the total; every product of a day count with 86400 or 604800 in ddiff and dt-core is computed in 64 bits; every case of dt_ddiff that borrows a day from the date part reports it in res.fix after the last whole assignment of the result, and dt_dtdiff shifts the seconds by one day when the flag is set.",
+   text="Decides the refinement rule structurally for all durations and all subsets of the fixed-ratio units week / day / hour / minute / second: in precalc the total is made non-negative, the unit blocks come in strictly decreasing unit order, each divides and reduces by the same constant and the seconds slot receives the rest, so the printed components recombine to the total truncated toward zero; an interval analysis partitioned by the four request flags proves, for each of the 16 flag combinations, every refined component inside [0, next-coarser-requested/own - 1] and the coarsest non-negative; sibling agreement ties the constants to the specifiers: the specifier that sets a flag (determine_durfmt) prints the field (__strfdtdur) that the block guarded by that flag fills (precalc), with the number of seconds of that specifier's unit; the print loop never writes the precomputed components (each specifier may occur repeatedly) and exactly one minus sign is written, before the loop, from the sign of the total; on every path of precalc that fills the seconds slot, sign * (components * units + seconds) equals days*86400 + seconds + leap correction as a polynomial identity (the correction loses its sign together with the total); every product of a day count with 86400 or 604800 in ddiff and dt-core is computed in 64 bits; every case of dt_ddiff that borrows a day from the date part reports it in res.fix after the last whole assignment of the result, and dt_dtdiff shifts the seconds by one day when the flag is set.",
    note="That dt_dtdiff delivers the true difference as days + seconds, and the month / year / quarter split (not fixed ratios) are not decided here. The leap second correction is attributed to the seconds slot only, so 'seconds < 60' is not claimed.",
    technique="static analysis: structural decoding of the unit cascade, trace-partitioned interval abstract interpretation, sibling agreement across three switch tables, write-set analysis, type-width rule on products",
    ref="DESIGN.md §4 C06")
